@@ -33,7 +33,7 @@ def _symex_job(args):
     """phase A: symbolic execution of one unit -> obligations (SMT-LIB2 text for the non-trivial ones)"""
     unit_name, tier = args
     from .engine import Engine
-    from .core import EngineError
+    from .core import EngineError, has_user_quantifier, term_size
     import z3
     t0 = time.time()
     out = {'unit': unit_name, 'obligations': [], 'error': None}
@@ -53,6 +53,24 @@ def _symex_job(args):
                     s.add(f)
                 if ob.kind != 'cover':
                     s.add(z3.Not(ob.goal))
+                    # "lite" variant: without the quantified assumptions that come from contract clauses (class
+                    # invariants ...); unsat there is a proof, anything else falls back to the full query
+                    lite = [f for f in ob.pc if not has_user_quantifier(f)]
+                    if len(lite) != len(ob.pc):
+                        s2 = z3.Solver()
+                        for f in lite:
+                            s2.add(f)
+                        s2.add(z3.Not(ob.goal))
+                        o['smt2_lite'] = s2.to_smt2()
+                        # "mid" variant: additionally the small quantified assumptions (loop invariants about the
+                        # trace, snapshots ...) but not the large ones (whole-table class invariants)
+                        mid = [f for f in ob.pc if not has_user_quantifier(f) or term_size(f, 121) <= 120]
+                        if len(mid) != len(lite) and len(mid) != len(ob.pc):
+                            s3 = z3.Solver()
+                            for f in mid:
+                                s3.add(f)
+                            s3.add(z3.Not(ob.goal))
+                            o['smt2_mid'] = s3.to_smt2()
                 o['smt2'] = s.to_smt2()
                 o['status'] = None
             out['obligations'].append(o)
@@ -114,6 +132,8 @@ def run_units(unit_names, tier, jobs=None):
         r['obligations'] = [solved.get((o['unit'], o['idx']), o) for o in r['obligations']]
         for o in r['obligations']:
             o.pop('smt2', None)
+            o.pop('smt2_lite', None)
+            o.pop('smt2_mid', None)
     return results
 
 
